@@ -12,7 +12,7 @@ from ..engine import cfg as cfgmod, typestate
 from ..engine.facts import dotted, const, src, walk_func, enclosing_stmt, ancestors
 from . import skeletons as sk
 from ..engine import pattern as P
-from .common import calls, stmt_nodes, norm_successors, contains, raise_names
+from .common import calls, stmt_nodes, norm_successors, contains, raise_names, pn, access_paths
 from . import c16  # render-isolation is registered there for C13 as well
 
 DEF_CONSTRUCTS = ["write_render_callable", "write_inline_def"]
